@@ -1,5 +1,5 @@
 (* Wire glue for C15 (ops 15xx): universal value -> render model/spec functions. *)
-From Fzf Require Import Prelude Val RenderSpec RenderModel.
+From Fzf Require Import Prelude Val RenderSpec RenderModel RenderDynModel.
 Open Scope Z_scope.
 
 Definition as_layout (v : val) : layout :=
@@ -37,6 +37,17 @@ Fixpoint d_run (c : cfg) (t : term) (us : list upd) : list val :=
   | u :: r => d_run c (step c t u) r
   end.
 
+(* [visible, [--header line...], [--header-lines line...]] *)
+Definition as_hdr (v : val) : hdr := mkHdr (as_bool (arg v 0)) (as_strs (arg v 1)) (as_strs (arg v 2)).
+Definition as_dupd (v : val) : dupd := mkDU (as_hdr (arg v 0)) (as_upd (arg v 1)).
+(* 1508: the machine of RenderDynModel; every screen is laid out for the header in force at that point *)
+Fixpoint d_run_d (c0 : cfg) (h : hdr) (d : dterm) (dus : list dupd) : list val :=
+  VL [vnat (t_cy (d_t d)); vnat (t_off (d_t d)); vrows (physical (with_hdr c0 h) (t_screen (d_t d)))] ::
+  match dus with
+  | [] => []
+  | du :: r => d_run_d c0 (du_hdr du) (step_d c0 d du) r
+  end.
+
 Definition dispatch_render (op : Z) (a : val) : option val :=
   if op =? 1501 then   (* [count, maxl, scrolloff, cy, off] -> [cy', off'] *)
     let '(cy, off) := constrain (as_nat (arg a 0)) (as_nat (arg a 1)) (as_nat (arg a 2)) (as_nat (arg a 3)) (as_nat (arg a 4)) in
@@ -52,4 +63,7 @@ Definition dispatch_render (op : Z) (a : val) : option val :=
     let c := as_cfg (arg a 0) in let v := as_view (arg a 2) in
     let ar := mrows_area c (as_mrows (arg a 1)) v (v_off v) in
     Some (VL (map (fun i => VL [vnat (list_row c i); vstr (nth i ar [])]) (seq 0 (max_items c))))
+  else if op =? 1508 then   (* [cfg, hdr0, view0, [[hdr, upd]...]] -> as 1503, the header changing along the history *)
+    let c0 := as_cfg (arg a 0) in let h0 := as_hdr (arg a 1) in
+    Some (VL (d_run_d c0 h0 (start_d c0 h0 (as_view (arg a 2))) (map as_dupd (as_list (arg a 3)))))
   else None.
